@@ -305,7 +305,16 @@ let cmd_print_canon (req : json) : json =
   let l = loose_of (field req "tree") in
   Obj [ ("wf", Bool (wf_loose l)); ("text", jtext (pr_loose l)); ("ast", jexpr (expr_of_loose l)) ]
 
-let handlers : (string * (json -> json)) list ref = ref [ ("print_canon", cmd_print_canon); ("encode", cmd_encode); ("layout", cmd_layout); ("finalize", cmd_finalize);
+(* .text: model bytes of a string in an encoding, and the spec bytes (printable ASCII only, else null) *)
+let cmd_encode_text (req : json) : json =
+  let s = text_of (field req "text") in
+  let enc = match to_str (field req "enc") with "petscii" -> EncPetscii | "petscreen" -> EncPetscreen | _ -> EncAscii in
+  let printable = List.for_all (fun c -> let k = small_of_z (Z.of_N c) in k >= 32 && k <= 126) s in
+  let spec = if not printable then Null else
+      (match enc with EncAscii -> jtext s | EncPetscii -> jtext (List.map spec_petscii s) | EncPetscreen -> jtext (List.map spec_screen s)) in
+  Obj [ ("bytes", jtext (encode_text enc s)); ("spec", spec) ]
+
+let handlers : (string * (json -> json)) list ref = ref [ ("print_canon", cmd_print_canon); ("encode_text", cmd_encode_text); ("encode", cmd_encode); ("layout", cmd_layout); ("finalize", cmd_finalize);
     ("parse_expr", cmd_parse_expr); ("eval_expr", cmd_eval_expr); ("sem_expr", cmd_sem_expr) ]
 
 let () =
